@@ -231,7 +231,7 @@ func RunRaceHistory(o HistOpts) *HistResult {
 	}
 	for try := 0; try < 8; try++ {
 		cfg = g.Config()
-		if o.Hist%2 == 1 {
+		if o.Hist == 0 {
 			// with the exporter on, handlers and reconfigure() also take the process-wide metrics gatherer lock
 			if cfg.Common == nil {
 				cfg.Common = &CommonCfg{}
@@ -258,6 +258,9 @@ func RunRaceHistory(o HistOpts) *HistResult {
 	}
 	defer os.RemoveAll(stateDir)
 	res.Cfg = cfg.Clone()
+	if cfg.Common != nil && cfg.Common.PrometheusExport {
+		res.Stats["c15_histories_with_metrics_exporter"]++
+	}
 	kub, kerr := startFakeKubelet(o.WorkDir)
 	if kerr == nil {
 		defer kub.srv.Stop()
